@@ -26,10 +26,11 @@ import (
 // ---------- replayable scenario ----------
 
 type MOp struct {
-	Kind string `json:"kind"` // start | crash | leave | restart | sleep | big | small
-	Node int    `json:"node"` // slot (address) index
-	Name string `json:"name,omitempty"`
-	Dt   int64  `json:"dt,omitempty"` // virtual ns (sleep)
+	Kind  string `json:"kind"` // start | crash | leave | restart | sleep | big | small
+	Node  int    `json:"node"` // slot (address) index
+	Name  string `json:"name,omitempty"`
+	Dt    int64  `json:"dt,omitempty"`    // virtual ns (sleep)
+	Count int    `json:"count,omitempty"` // burst: number of small updates back-to-back
 }
 
 type MemberCase struct {
@@ -119,21 +120,21 @@ func runMember(t *testing.T, c *MemberCase) (term string, viols []vh.Violation, 
 				}
 			case "sleep":
 				time.Sleep(time.Duration(op.Dt))
-			case "big", "small":
+			case "big", "small", "burst":
 				src := slots[op.Node]
 				if src == nil || !src.up {
 					continue
 				}
-				nUpdates++
-				var firing []uint64
-				nf := 2
-				if op.Kind == "big" {
-					nf = 100
+				// burst: several small updates back-to-back (no gossip round in between), the way one API edit of a
+				// silence's matchers, or the log entries of several receivers of one flush, come
+				kinds := []string{op.Kind}
+				if op.Kind == "burst" {
+					kinds = nil
+					for i := 0; i < max(2, op.Count); i++ {
+						kinds = append(kinds, "small")
+					}
+					tags["burst"]++
 				}
-				for i := 0; i < nf; i++ {
-					firing = append(firing, 1<<63+uint64(nUpdates)*1000+uint64(i))
-				}
-				gk := fmt.Sprintf("g%d", nUpdates)
 				recv := receivers[0]
 				// membership as the sender's memberlist sees it at send time
 				// A name the sender still maps to ANOTHER address than the one its running instance has (same-name
@@ -154,46 +155,70 @@ func runMember(t *testing.T, c *MemberCase) (term string, viols []vh.Violation, 
 					members = append(members, m.Name())
 				}
 				sort.Strings(members)
-				if err := src.nl.Log(recv, gk, firing, nil, nil, 0); err != nil {
-					t.Fatal(err)
+				type upd struct {
+					gk   string
+					nf   int
+					kind string
+				}
+				var upds []upd
+				for _, kind := range kinds {
+					nUpdates++
+					var firing []uint64
+					nf := 2 + nUpdates%3
+					if kind == "big" {
+						nf = 100
+					}
+					for i := 0; i < nf; i++ {
+						firing = append(firing, 1<<63+uint64(nUpdates)*1000+uint64(i))
+					}
+					gk := fmt.Sprintf("g%d", nUpdates)
+					if err := src.nl.Log(recv, gk, firing, nil, nil, 0); err != nil {
+						t.Fatal(err)
+					}
+					upds = append(upds, upd{gk, nf, kind})
 				}
 				// reliable sends are immediate; gossip needs a few rounds (no push/pull for 60 s of virtual time)
 				time.Sleep(5 * time.Second)
-				var got, live []string
-				for _, s := range slots {
-					if s == nil || !s.up {
-						continue
-					}
-					live = append(live, s.name)
-					es, err := s.nl.Query(nflog.QGroupKey(gk), nflog.QReceiver(recv))
-					if err == nil && len(es) == 1 && len(es[0].FiringAlerts) == nf {
-						got = append(got, s.name)
-					}
-				}
-				sort.Strings(got)
-				sort.Strings(live)
-				tags["update-"+op.Kind]++
-				rows = append(rows, fmt.Sprintf("(%s, %s, %s, %s, %s)", vh.List(append([]string(nil), events...)), vh.Str(src.name), vh.Bool(op.Kind == "big"),
-					coqStrs(members), coqStrs(got)))
-				// direct oracle: every running instance that the sender's memberlist lists as a member holds the update
-				for _, name := range live {
-					inMembers, inGot := false, false
-					for _, m := range members {
-						inMembers = inMembers || m == name
-					}
-					for _, g := range got {
-						inGot = inGot || g == name
-					}
-					if inMembers && !inGot {
-						key := "small-update-misses-member"
-						if op.Kind == "big" {
-							key = "oversized-update-misses-member"
+				for _, u := range upds {
+					var got, live []string
+					for _, s := range slots {
+						if s == nil || !s.up {
+							continue
 						}
-						violate(key, fmt.Sprintf("%s update from %s: running member %s (members at send time %v) did not receive it; sender bookkeeping %v",
-							op.Kind, src.name, name, members, src.p.PeerStatusesForVerif()))
+						live = append(live, s.name)
+						es, err := s.nl.Query(nflog.QGroupKey(u.gk), nflog.QReceiver(recv))
+						if err == nil && len(es) == 1 && len(es[0].FiringAlerts) == u.nf {
+							got = append(got, s.name)
+						}
 					}
-					if !inMembers {
-						tags["running-instance-not-yet-a-member-at-send"]++
+					sort.Strings(got)
+					sort.Strings(live)
+					tags["update-"+u.kind]++
+					rows = append(rows, fmt.Sprintf("(%s, %s, %s, %s, %s)", vh.List(append([]string(nil), events...)), vh.Str(src.name), vh.Bool(u.kind == "big"),
+						coqStrs(members), coqStrs(got)))
+					// direct oracle: every running instance that the sender's memberlist lists as a member holds the update
+					for _, name := range live {
+						inMembers, inGot := false, false
+						for _, m := range members {
+							inMembers = inMembers || m == name
+						}
+						for _, g := range got {
+							inGot = inGot || g == name
+						}
+						if inMembers && !inGot {
+							key := "small-update-misses-member"
+							if u.kind == "big" {
+								key = "oversized-update-misses-member"
+							}
+							if op.Kind == "burst" {
+								key = "burst-update-misses-member"
+							}
+							violate(key, fmt.Sprintf("%s update from %s (%s of %d): running member %s (members at send time %v) did not receive it; sender bookkeeping %v",
+								u.kind, src.name, op.Kind, len(upds), name, members, src.p.PeerStatusesForVerif()))
+						}
+						if !inMembers {
+							tags["running-instance-not-yet-a-member-at-send"]++
+						}
 					}
 				}
 			}
@@ -237,6 +262,9 @@ func genMember(r *vh.Rand, idx int) *MemberCase {
 	}
 	if idx == 0 {
 		startAll(3)
+		add(MOp{Kind: "small", Node: 0})
+		add(MOp{Kind: "small", Node: 0})
+		add(MOp{Kind: "burst", Node: 0, Count: 4})
 		add(MOp{Kind: "big", Node: 0})
 		add(MOp{Kind: "crash", Node: 2})
 		cur[2] = fresh()
@@ -252,6 +280,10 @@ func genMember(r *vh.Rand, idx int) *MemberCase {
 		c.Slots = 4
 	}
 	startAll(3)
+	warm := r.Intn(3)
+	add(MOp{Kind: "small", Node: warm})
+	add(MOp{Kind: "small", Node: warm})
+	add(MOp{Kind: "burst", Node: warm, Count: r.Range(2, 6)})
 	rounds := r.Range(1, 2)
 	for k := 0; k < rounds; k++ {
 		add(MOp{Kind: vh.Pick(r, []string{"big", "big", "small"}), Node: r.Intn(3)})
